@@ -224,12 +224,15 @@ func (p *Program) compile(fn *ssa.Function) *fnInfo {
 	}
 	if rep, ok := p.replace[name]; ok {
 		rf := p.funcByFullName(rep)
-		if rf == nil {
+		if rf != nil {
+			info.repl = rf
+			return info
+		}
+		if !strings.HasPrefix(rep, modelPkg+"zip.") || fn.Blocks == nil {
 			info.err = "model function " + rep + " not found"
 			return info
 		}
-		info.repl = rf
-		return info
+		// optional model package not loaded: interpret the real function
 	}
 	if fn.Blocks == nil {
 		info.err = "no body (external / assembly)"
